@@ -848,7 +848,7 @@ func runMessages(c *vh.Ctx) {
 		}
 	}
 	rec()
-	for i, n := 0, c.N(2500, 60000); i < n && !c.Failed(); i++ {
+	for i, n := 0, c.N(2500, 20000); i < n && !c.Failed(); i++ {
 		checkMsg(c, genSpec(c), "random")
 	}
 }
